@@ -12,4 +12,5 @@ INVARIANT NoMergeFailure
 INVARIANT PerTreeQueriesEnabled
 INVARIANT RootingKept
 INVARIANT NothingLost
+PROPERTY OperandsUnchanged
 CHECK_DEADLOCK FALSE
